@@ -784,7 +784,7 @@ impl RoamProg {
                 }
                 3 => {
                     // plain far move + write + output
-                    w.rep(f, k * (1 + s.m as u64));
+                    w.rep(f, k * (1 + s.m as u64) * if s.cnt % 3 == 0 { 20 } else { 1 });
                     w.e("+.");
                 }
                 4 => {
@@ -820,13 +820,18 @@ impl RoamProg {
                     w.e("]");
                 }
                 _ => {
-                    // counted far walk inside a loop: cnt times { move k*m, mark, print }
-                    w.rep('+', 1 + (s.cnt as u64 % 6));
-                    w.e("[-");
-                    w.rep(f, k * (1 + (s.m as u64 % 8)));
-                    w.e("+.");
-                    w.e("[-]");
-                    w.rep(b, 0);
+                    // carry a counter with a long stride, leaving breadcrumbs (reaches > 1000 cells)
+                    let stride = k * (2 + s.m as u64 % 12);
+                    w.rep('+', 4 + s.cnt as u64);
+                    w.e("[-[-");
+                    w.rep(f, stride);
+                    w.e("+");
+                    w.rep(b, stride);
+                    w.e("]+");
+                    if s.from_input {
+                        w.e(".");
+                    }
+                    w.rep(f, stride);
                     w.e("]");
                 }
             }
